@@ -46,16 +46,10 @@ try:
             print(r.stdout[-1500:])
             ok = False
     for pid in a.pids.split(","):
-        ev = os.path.join(root, "evidence", pid + ".json")
-        bak = ev + ".bak"
-        if os.path.exists(ev):
-            shutil.copy(ev, bak)
         env = dict(os.environ, VERIF_REPO=wt, VERIF_SEED=a.seed)
         r = subprocess.run([os.path.join(root, "check"), pid, "--tier", a.tier], env=env,
                            stdout=subprocess.PIPE, stderr=subprocess.STDOUT, text=True, cwd=root)
         viol = [l for l in r.stdout.splitlines() if l.startswith("VIOLATION")]
-        if os.path.exists(bak):
-            shutil.move(bak, ev)
         detected = r.returncode == 1 and bool(viol)
         print("%s: exit=%d violations=%d -> %s" % (pid, r.returncode, len(viol),
               "DETECTED" if detected else ("quiet" if r.returncode == 0 else "BROKEN/OTHER")))
